@@ -24,7 +24,7 @@ build=$(go build ./... 2>&1 && echo BUILD-OK)
 suite=$(go test -vet=off -count=1 ./... 2>&1 | grep -v "^ok\|no test files" | head -5)
 cp $out/zz_seeded_demo_test.go $demodir/
 demo_with=$(go test -vet=off -count=1 -run 'Seeded' ./$demodir/ 2>&1 | tail -1)
-git stash -q -- $(git diff --name-only)
+git apply -R $out/patch.diff
 demo_without=$(go test -vet=off -count=1 -run 'Seeded' ./$demodir/ 2>&1 | tail -1)
 cd /; git -C /repo worktree remove --force $scratch
 echo "build: $build"; echo "suite-nonok: [$suite]"; echo "demo with change: $demo_with"; echo "demo without: $demo_without"
